@@ -95,6 +95,9 @@ func (c *Ctx) Emit(caseJSON interface{}, coqTerm string, distinctKey string, cla
 		cj, _ := json.Marshal(caseJSON)
 		if len(cj) < 4000 {
 			c.samples = append(c.samples, cj)
+		} else if len(c.samples) < 2 {
+			t, _ := json.Marshal(string(cj[:1500]) + " ...")
+			c.samples = append(c.samples, t)
 		}
 	}
 	if c.inShard >= c.PerFile {
